@@ -16,7 +16,7 @@ from .. import graph_hist as H
 from .. import histprops as HP
 
 LEVEL = 'proof'
-NEEDS = ['Base', 'Digraph', 'DigraphProofs', 'Names', 'Graph', 'GraphObs', 'GraphTS', 'GraphInv', 'GraphAcyclicLemmas', 'GraphAcyclicProofs']
+NEEDS = ['SFValidate', 'CtorAcyclicProofs', 'CtorAcyclicLag', 'Extracted', 'SourceFacts', 'Base', 'Digraph', 'DigraphProofs', 'Names', 'Graph', 'GraphObs', 'GraphTS', 'GraphInv', 'GraphAcyclicLemmas', 'GraphAcyclicProofs']
 
 
 def acyclic(nodes, arcs):
